@@ -399,3 +399,18 @@ func (u *Universe) sign(tok string, m *shmsg.MessageWithNonce) []byte {
 	}
 	return []byte(base64.RawURLEncoding.EncodeToString(signed))
 }
+
+// offerCrafted hands CheckTx the signature of tx in front of a different (well-formed) payload.
+func (u *Universe) offerCrafted(r *Replica, tx Tx) {
+	defer func() { _ = recover() }()
+	raw, err := base64.RawURLEncoding.DecodeString(string(u.Concretise(tx)))
+	if err != nil || len(raw) < 65 {
+		return
+	}
+	body, err := proto.Marshal(&shmsg.MessageWithNonce{ChainId: []byte(ChainID), RandomNonce: 1 << 33, Msg: shmsg.NewBlockSeen(7)})
+	if err != nil {
+		return
+	}
+	crafted := append(append([]byte{}, raw[:65]...), body...)
+	r.App.CheckTx(abcitypes.RequestCheckTx{Tx: []byte(base64.RawURLEncoding.EncodeToString(crafted))})
+}
